@@ -23,6 +23,7 @@ const (
 	HdrMalformed
 	HdrClose
 	HdrStreamError // valid header, then <stream:error/> instead of features
+	HdrStreamEnd   // valid header, then </stream:stream> instead of features; the TCP connection stays open
 	HdrOKForeignID // valid header that also carries attributes called id in other namespaces (xml:id, x:id)
 )
 
@@ -38,6 +39,7 @@ const (
 	TLSUnexpected
 	TLSMalformed
 	TLSClose
+	TLSStreamEnd // </stream:stream>, and the TCP connection stays open
 )
 
 const (
@@ -57,6 +59,7 @@ const (
 	AuthStanza
 	AuthMalformed
 	AuthClose
+	AuthStreamEnd // </stream:stream>, and the TCP connection stays open
 )
 
 const (
@@ -81,6 +84,7 @@ const (
 	BindEmptyResult
 	BindOther
 	BindClose
+	BindStreamEnd // </stream:stream>, and the TCP connection stays open
 	BindInMessage // the bind payload inside a <message type='result'/>: not an IQ, so no answer to the request
 	BindForeignID // an IQ result with the payload, but for another request id
 )
@@ -90,6 +94,7 @@ const (
 	SessionError
 	SessionOther
 	SessionClose
+	SessionStreamEnd  // </stream:stream>, and the TCP connection stays open
 	SessionInPresence // <presence type='result'/>: not an IQ
 	SessionForeignID  // an IQ result for another request id
 )
@@ -349,6 +354,10 @@ func (sc *SrvConn) header(kind int) bool {
 		sc.Send(fmt.Sprintf("<?xml version='1.0'?><stream:stream id='%s' from='%s' xmlns='%s' xmlns:stream='%s' version='1.0'>", id, sc.S.Domain, ns, nsStream))
 		sc.Send(fmt.Sprintf("<stream:error><host-unknown xmlns='%s'/></stream:error></stream:stream>", nsStreams))
 		return false
+	case HdrStreamEnd:
+		sc.Send(fmt.Sprintf("<?xml version='1.0'?><stream:stream id='%s' from='%s' xmlns='%s' xmlns:stream='%s' version='1.0'>", id, sc.S.Domain, ns, nsStream))
+		sc.Send("</stream:stream>")
+		return false
 	}
 	return true
 }
@@ -530,6 +539,8 @@ func (sc *SrvConn) handle(it *Item) {
 			sc.Send("<proceed xmlns='" + nsTLS + "'<<")
 		case TLSClose:
 			sc.Close()
+		case TLSStreamEnd:
+			sc.Send("</stream:stream>")
 		}
 	case el.Is(nsSASL, "auth"):
 		sc.AuthSeen = append(sc.AuthSeen, el)
@@ -558,6 +569,8 @@ func (sc *SrvConn) handle(it *Item) {
 			sc.Send("<success xmlns='" + nsSASL + "'<")
 		case AuthClose:
 			sc.Close()
+		case AuthStreamEnd:
+			sc.Send("</stream:stream>")
 		}
 	case el.Is(nsSM, "resume"):
 		sc.delay()
@@ -622,6 +635,8 @@ func (sc *SrvConn) handle(it *Item) {
 			sc.Send("<message xmlns='jabber:client'><body>busy</body></message>")
 		case BindClose:
 			sc.Close()
+		case BindStreamEnd:
+			sc.Send("</stream:stream>")
 		case BindInMessage:
 			sc.Send(fmt.Sprintf("<message type='result' id='%s'><bind xmlns='%s'><jid>%s</jid></bind></message>", id, nsBind, xmlEscape(sc.S.BoundJid)))
 		case BindForeignID:
@@ -639,6 +654,8 @@ func (sc *SrvConn) handle(it *Item) {
 			sc.Send("<message xmlns='jabber:client'><body>busy</body></message>")
 		case SessionClose:
 			sc.Close()
+		case SessionStreamEnd:
+			sc.Send("</stream:stream>")
 		case SessionInPresence:
 			sc.Send(fmt.Sprintf("<presence type='result' id='%s'/>", id))
 		case SessionForeignID:
